@@ -529,6 +529,11 @@ def _namefile_payload(c, name, site, payload, where):
         c.undecided(site + ":name-source", "name-byte-expression-not-recognised", str(sorted(srcs))[:80], where)
     rest = [x[1] for x in flat[1:] if x[0] == "byte"]
     want = ["file_type", "data_type", "gap_flag", "load_hi", "load_lo", "exec_hi", "exec_lo"]
+    more_reps = [x for x in flat[1:] if x[0] == "rep"]
+    if len(rest) != len(want) and more_reps:
+        # bytes written by a further loop (over a generator, a list of fields ...): their number is not known here
+        c.undecided(site + ":fields", "header-bytes-written-by-a-loop", "%d single bytes and %d loop(s) after the name" % (len(rest), len(more_reps)), where)
+        return
     if len(rest) != len(want):
         c.finding(site + ":fields", "%d header bytes after the name (format has 7)" % len(rest), "%s: name-file block has %d bytes after the name, the format has 7" % (name, len(rest)), where)
         return
@@ -1313,6 +1318,38 @@ def cas5b(ctx, c):
                             "copied to a disk" % ({"Eq": "==", "NotEq": "!="}.get(type(n.test.ops[0]).__name__, "?"), k), repo.loc(rf, n))
 
 
+def _fresh_accumulator(repo, f, mname, pname):
+    """every call of method `mname` in the repository passes, for parameter `pname`, a local that the caller bound to a new empty container"""
+    all_params = [p_ for p_ in f.params if p_ not in ("self", "cls")]
+    if pname not in all_params:
+        return False
+    pos = all_params.index(pname)
+    sites = 0
+    for g in repo.all_funcs():
+        for call in [x for x in ast.walk(g.node) if isinstance(x, ast.Call) and ((isinstance(x.func, ast.Attribute) and x.func.attr == mname) or (isinstance(x.func, ast.Name) and x.func.id == mname))]:
+            sites += 1
+            arg = call.args[pos] if len(call.args) > pos else next((k.value for k in call.keywords if k.arg == pname), None)
+            if not isinstance(arg, ast.Name):
+                return False
+            binds = [b_.value for b_ in ast.walk(g.node) if isinstance(b_, ast.Assign) and any(isinstance(t_, ast.Name) and t_.id == arg.id for t_ in b_.targets)]
+            fresh = binds and all((isinstance(v_, (ast.List, ast.Dict, ast.Set)) and not getattr(v_, "elts", getattr(v_, "keys", []))) or
+                                  (isinstance(v_, ast.Call) and U(v_.func) in ("list", "bytearray", "dict", "set") and not v_.args) for v_ in binds)
+            if not fresh:
+                return False
+    # handler tables: the method referenced without being called (handlers = {"01": self._consume}) and called through the table
+    if sites == 0:
+        refs = [g for g in repo.all_funcs() for x in ast.walk(g.node) if isinstance(x, ast.Attribute) and x.attr == mname and isinstance(x.ctx, ast.Load)
+                and not any(isinstance(c_, ast.Call) and c_.func is x for c_ in ast.walk(g.node))]
+        if refs and mname.startswith("_"):
+            g = refs[0]
+            fresh_locals = {t_.id for b_ in ast.walk(g.node) if isinstance(b_, ast.Assign) for t_ in b_.targets if isinstance(t_, ast.Name)
+                            and ((isinstance(b_.value, ast.List) and not b_.value.elts) or (isinstance(b_.value, ast.Call) and U(b_.value.func) in ("list", "bytearray") and not b_.value.args))}
+            indirect = [c_ for c_ in ast.walk(g.node) if isinstance(c_, ast.Call) and isinstance(c_.func, ast.Name) and len(c_.args) > pos and isinstance(c_.args[pos], ast.Name)]
+            return bool(indirect) and all(c_.args[pos].id in fresh_locals for c_ in indirect)
+        return False
+    return True
+
+
 def cas3(ctx, c):
     """input not consumed: writers never mutate the data they are given (C09/C11/C16: the same CoCoFile is written to several containers)"""
     repo = ctx.repo
@@ -1356,6 +1393,9 @@ def cas3(ctx, c):
                     root = node.func.value
                     while isinstance(root, (ast.Attribute, ast.Subscript)):
                         root = root.value
+                    if isinstance(root, ast.Name) and root.id in derived and root.id != "buffer" and node.func.attr in ("append", "extend") \
+                            and root.id in params and _fresh_accumulator(repo, f, mname, root.id):
+                        continue        # an output parameter: every caller hands in a container it has just created
                     if isinstance(root, ast.Name) and root.id in derived and root.id != "buffer":
                         n += 1
                         c.finding("%s.%s" % (cname, mname), "mutates its argument: %s" % U(node)[:40],
